@@ -47,4 +47,5 @@ def run(prog: Program, col: Collector, tier: str, refs: Optional[Refs] = None, c
     algebra.r_reduce_rules_keep_absent_vars(prog, col, refs, cat, "R08.15")
     algebra.r_contraction_rules_cover_reduced_vars(prog, col, refs, cat, "R08.16")
     algebra.r_contraction_result_reduces(prog, col, refs, cat, "R08.17")
+    algebra.r_nested_fusion_same_red_op(prog, col, refs, cat, "R08.18")
     return col
